@@ -114,6 +114,10 @@ def gen_cases(tier, seed):
             # detach, enable) while older postponed callbacks are still owed
             yield reentry.gen_nested(
                 random.Random(f'C02/nest/{seed}/{tier}/{i}'))
+        if i % 20 == 5:
+            # components nobody refers to, attached/detached while disabled
+            yield reentry.gen_unref(
+                random.Random(f'C02/unref/{seed}/{tier}/{i}'))
         yield gen_one(random.Random(f'C02/{seed}/{tier}/{i}'), tier, i)
 
 
@@ -398,6 +402,8 @@ def run_case(case):
         return reentry.run_disable(case)
     if case.get('scenario') == 'nested_batch':
         return reentry.run_nested(case)
+    if case.get('scenario') == 'unreferenced':
+        return reentry.run_unref(case)
     if case.get('scenario'):
         return run_scenario(case)
     res = Res()
